@@ -186,10 +186,14 @@ func decodeTimestamp(s []byte) (time.Time, error) {
 // See copy_reflog_msg in refs.c:
 // https://github.com/git/git/blob/7ff1e8dc1e1680510c96e69965b3fa81372c5037/refs.c#L1026-L1049
 func normalizeMessage(msg string) string {
-	msg = strings.ReplaceAll(msg, "\n", " ")
-	msg = strings.ReplaceAll(msg, "\r", " ")
-	fields := strings.Fields(msg)
+	fields := strings.FieldsFunc(msg, isGitSpace)
 	return strings.Join(fields, " ")
+}
+
+// isGitSpace reports whether r is whitespace for Git's isspace(): only
+// SP, HT, LF and CR. Other Unicode spaces (VT, FF, NBSP, ...) are kept.
+func isGitSpace(r rune) bool {
+	return r == ' ' || r == '\t' || r == '\n' || r == '\r'
 }
 
 // Encode writes a single reflog entry to the writer.
